@@ -1,4 +1,5 @@
 import CuriesVerif.Lemmas.WF
+import CuriesVerif.Lemmas.Trie
 
 /-!
 # T0 — the refinement theorem
@@ -471,10 +472,14 @@ theorem T0 {c : Conv} (h : WF c) (hd : c.delim ≠ []) (q : Query) :
   unfold Conv.run Spec.answer
   simp only
   split
-  case h_32 =>
+  case h_33 =>
     exfalso
     simp only [Spec.specified, Spec.answer] at hs
     cases hs
+  case h_32 =>
+    -- the structural trie computes the contract (`Trie.lpi_log`), the contract is the specification (`lpi_refine`)
+    simp only [Trie.lpi_log, lpi_refine h]
+    cases longest c.records _ <;> rfl
   case h_20 =>
     simp only [getRecord_eq]
     cases ownerP c.records _ <;> rfl
